@@ -91,7 +91,7 @@ def oracle(p):
 
 
 def finding_of(v):
-    return 'F-C07-1' if v['rule'] == F1 else 'F-C07-2' if v['rule'] == F2 else None
+    return None      # F1 (was F-C07-1) is fixed by 09dbf89, F2 (was F-C07-2) by 12650a7: reported as violations if they return
 
 
 def scenarios(run):
